@@ -167,6 +167,20 @@ impl Peer for Responder {
                     ctx.out.push((to, krpc::ping(tid.as_bytes(), &self.id)));
                 }
             }
+            Some("get_peers") => {
+                if let Some(to) = parts.get(1).and_then(|a| a.parse().ok()) {
+                    self.tid_counter += 1;
+                    let tid = format!("g{:03}", self.tid_counter);
+                    ctx.out.push((to, krpc::get_peers(tid.as_bytes(), &self.id, &[0x3d; 20], None)));
+                }
+            }
+            Some("announce_bad_token") => {
+                if let Some(to) = parts.get(1).and_then(|a| a.parse().ok()) {
+                    self.tid_counter += 1;
+                    let tid = format!("a{:03}", self.tid_counter);
+                    ctx.out.push((to, krpc::announce_peer(tid.as_bytes(), &self.id, &[0x3d; 20], b"this-is-not-a-token!", Some(4321))));
+                }
+            }
             Some("find_node") => {
                 if let Some(to) = parts.get(1).and_then(|a| a.parse().ok()) {
                     self.tid_counter += 1;
